@@ -80,3 +80,11 @@ Theorem gen_c17_create_sizes :
             Z.of_N (seg_count count (d_segsize (create count obj dd tight segpages pagesize nsheps oshep)))).
 Proof. exact tie_create_sizes. Qed.
 Print Assumptions gen_c17_create_sizes.
+
+(* qt_lcm itself (include/qt_gcd.h -> Gen/Gcd.v; proof in Gen/Tie_Gcd.v): the `zlcm` oracle of gen_c17_create_sizes (N.lcm)
+   is the regenerated C function when the product fits 64 bits *)
+From QV Require Import Gen.Gcd Gen.Tie_Gcd.
+Theorem gen_c17_lcm : forall a b : N, Z.of_N a * Z.of_N b < 18446744073709551616 ->
+  Gen.Gcd.qt_lcm (S (N.to_nat (N.size a))) (Z.of_N a) (Z.of_N b) = Some (Z.of_N (N.lcm a b)).
+Proof. exact tie_lcm_N. Qed.
+Print Assumptions gen_c17_lcm.
